@@ -312,6 +312,12 @@ def selectArgs (ca : Dict BVal) : List String → Dict BVal → Except Exc (Dict
     | Option.none => .error .keyError
     | some v => selectArgs ca ks (Dict.set acc k v)
 
+/-- `if include_args is not None: callargs = {…}` -/
+def applyInclude (opts : Opts) (ca : Dict BVal) : Except Exc (Dict BVal) :=
+  match opts.includeArgs with
+  | Option.none => .ok ca
+  | some ks => selectArgs ca ks []
+
 /-- `Action._start`: the user fields, then the structural keys written over them. -/
 def startMessage (actionType : String) (fields : Dict BVal) : Msg :=
   let f0 : Msg := fields.map (fun (k, v) => (k, FVal.arg v))
@@ -367,10 +373,7 @@ def wrapper (m : FnMeta) (sig : Sig) (opts : Opts) (f : Body) (pos : List Val) (
   | .error _ => ⟨[], .raised .typeError⟩
   | .ok ca0 =>
     let ca1 := Dict.del ca0 "self"
-    let ca2? := match opts.includeArgs with
-      | Option.none => Except.ok ca1
-      | some ks => selectArgs ca1 ks []
-    match ca2? with
+    match applyInclude opts ca1 with
     | .error e => ⟨[], .raised e⟩
     | .ok ca2 =>
       match startAction (theActionType m opts) ca2 with
@@ -378,6 +381,57 @@ def wrapper (m : FnMeta) (sig : Sig) (opts : Opts) (f : Body) (pos : List Val) (
       | .ok start =>
         let r := callDirect sig f pos kw
         ⟨[start, endMessage (theActionType m opts) opts r], r⟩
+
+/-! ## The outer function generated by `boltons.funcutils.wraps`
+
+`log_call` returns `wraps(wrapped_function)(logging_wrapper)`: a *new* function compiled from
+`def name(<sig without the "/" marker>): return _call(<invocation>)` with the original defaults.
+So a decorated call is first bound by Python against the demoted signature (positional-only
+parameters become positional-or-keyword: `inspect_formatargspec` has no notion of "/"), then
+`logging_wrapper` is invoked with every parameter passed explicitly
+(`FunctionBuilder.get_invocation_str`). -/
+
+def Param.demote (p : Param) : Param :=
+  match p.kind with
+  | .posOnly => { p with kind := .posOrKw }
+  | _ => p
+
+def Sig.demote (sig : Sig) : Sig := sig.map Param.demote
+
+def oneOf (b : Bound) (name : String) : List Val :=
+  match Dict.get? b name with
+  | some (.one v) => [v]
+  | _ => []          -- not reachable for a `b` produced by `bind`
+
+/-- `get_invocation_str`: which arguments are forwarded positionally / by keyword -/
+def Param.forwardedByKeyword (hasVarPos : Bool) (p : Param) : Bool :=
+  p.default.isSome && !hasVarPos && p.kind != .posOnly
+
+def invocation (sig : Sig) (b : Bound) : List Val × List (String × Val) :=
+  let hv := sig.varPos.isSome
+  let posPart := (sig.positional.filter (fun p => !p.forwardedByKeyword hv)).flatMap (fun p => oneOf b p.name)
+  let star := match sig.varPos with
+    | some va => (match Dict.get? b va with | some (.tup vs) => vs | _ => [])
+    | Option.none => []
+  let kwPart := (sig.positional.filter (fun p => p.forwardedByKeyword hv)).flatMap
+      (fun p => (oneOf b p.name).map fun v => (p.name, v))
+  let kwOnlyPart := sig.kwOnly.flatMap (fun p => (oneOf b p.name).map fun v => (p.name, v))
+  let starstar := match sig.varKw with
+    | some vk => (match Dict.get? b vk with | some (.dict kvs) => kvs | _ => [])
+    | Option.none => []
+  (posPart ++ star, kwPart ++ kwOnlyPart ++ starstar)
+
+/-- binding of the call by the generated outer function, and what it hands to `logging_wrapper` -/
+def outer (sig : Sig) (pos : List Val) (kw : List (String × Val)) : Except TypeErr (List Val × List (String × Val)) :=
+  match bind sig.demote pos kw with
+  | .error e => .error e
+  | .ok b => .ok (invocation sig b)
+
+/-- A call of the decorated function. -/
+def decorated (m : FnMeta) (sig : Sig) (opts : Opts) (f : Body) (pos : List Val) (kw : List (String × Val)) : Run :=
+  match outer sig pos kw with
+  | .error _ => ⟨[], .raised .typeError⟩
+  | .ok (pos', kw') => wrapper m sig opts f pos' kw'
 
 /-! ## Predicates used as hypotheses of the partial theorems -/
 
@@ -406,5 +460,24 @@ def getcallargsAgrees (sig : Sig) (pos : List Val) (kw : List (String × Val)) :
     match getcallargs sig pos kw with
     | .ok g => sameMap g b
     | .error _ => false
+
+/-- On this call the three binders involved in a decorated call (the boltons outer function,
+`inspect.getcallargs` on the forwarded arguments, the inner real call on the forwarded arguments)
+all agree with the plain call: same locals when the plain call binds, `TypeError` when it does not. -/
+def bindingAgrees (sig : Sig) (pos : List Val) (kw : List (String × Val)) : Bool :=
+  match bind sig pos kw, outer sig pos kw with
+  | .ok b, .ok (pos', kw') =>
+    (match bind sig pos' kw' with
+     | .ok b' => b' == b
+     | .error _ => false)
+    && (match getcallargs sig pos' kw' with
+        | .ok g => sameMap g b
+        | .error _ => false)
+  | .error _, .error _ => true
+  | _, _ => false
+
+/-- no keyword of the call is spelled like a positional-only parameter -/
+def posOnlyRespected (sig : Sig) (kw : List (String × Val)) : Bool :=
+  kw.all fun e => sig.all fun p => !(p.kind == .posOnly && p.name == e.1)
 
 end LC
